@@ -375,10 +375,13 @@ func genRPC(c *Chooser, o ScenOpts) *RPCPlan {
 		if m.Name == "RestGet" {
 			ms.Data = canonBytes(genQueryableMsg(c, md.Input(), mo))
 		}
-		if nreq > 1 && c.Prob(0.15) {
-			ms.Data = []byte{} // the all-defaults message: zero bytes in the binary codec, anywhere in a stream
+		if (nreq > 1 && c.Prob(0.15)) || (nreq == 1 && m.Name != "RestGet" && c.Prob(0.06)) {
+			ms.Data = []byte{} // the all-defaults message: zero bytes in the binary codec, anywhere in a stream or as the one message of a unary call
 		}
 		cp.Msgs = append(cp.Msgs, ms)
+	}
+	if (form == FormConnectUnary || form == FormREST) && c.Prob(0.3) {
+		cp.DeclareCL = "none" // a body of unknown length (chunked, or HTTP/2 without content-length), as streaming clients send
 	}
 	if form == FormREST {
 		cp.Codec, cp.ShortCT = "json", false
